@@ -137,9 +137,13 @@ ValidLo(d) == NMax({d.tmin} \cup {d.val[j].b + 1 : j \in {k \in DOMAIN d.val : d
                            \cup {d.val[j].b : j \in {k \in DOMAIN d.val : d.val[k].k = "greater_or_equal"}})
 ValidHi(d) == NMin({d.tmax} \cup {d.val[j].b - 1 : j \in {k \in DOMAIN d.val : d.val[k].k = "less"}}
                            \cup {d.val[j].b : j \in {k \in DOMAIN d.val : d.val[k].k = "less_or_equal"}})
+\* with a sanitizer the obtainable set is the image of the valid inputs (computed on the concrete 8-bit types only);
+\* whether the generator panics on the way is C09's subject, here only the range counts
+RunSet(runs) == UNION {runs[j][1]..runs[j][2] : j \in DOMAIN runs}
 CoverOK(d, o) ==
-  /\ o.panics = 0
-  /\ (d.san = <<>> => o.runs = (IF ValidLo(d) <= ValidHi(d) THEN <<<<ValidLo(d), ValidHi(d)>>>> ELSE <<>>))
+  IF d.san = <<>>
+  THEN o.panics = 0 /\ o.runs = (IF ValidLo(d) <= ValidHi(d) THEN <<<<ValidLo(d), ValidHi(d)>>>> ELSE <<>>)
+  ELSE (d.ty \in {"i8", "u8"}) => RunSet(o.runs) = Obtainable(d, d.tmin..d.tmax)
 
 ObsBad(d, e, i) ==
   CASE e.ep = "views" -> ~ViewsOK(d, e.ins[i].v[1], e.outs[i])
